@@ -128,6 +128,117 @@ Proof.
     reflexivity.
   - (* sdv register *)
     unfold sdv_register. apply sdv_register_core.
+  - (* v1 subscribe *)
+    unfold v1_subscribe, core_subscribe.
+    destruct (v1_sub_entries st (get_perm st p) path (fields_of_mask mask)) as [es|code]; [|reflexivity].
+    destruct (subscribe st (get_perm st p) es None) as [st' [h|e]] eqn:E; cbn [fst];
+      unfold exec_all; cbn [fold_left]; unfold exec_state; rewrite E; reflexivity.
+  - (* v2 subscribe *)
+    unfold v2_subscribe, core_subscribe.
+    destruct (v2_sub_entries (st_db st) l) as [es|code]; [|reflexivity].
+    destruct (subscribe st (get_perm st p) es (Some buf)) as [st' [h|e]] eqn:E; cbn [fst];
+      unfold exec_all; cbn [fold_left]; unfold exec_state; rewrite E; reflexivity.
+  - (* provider stream: claim *)
+    unfold v2_provide. destruct (v2_provide_ids (st_db st) l) as [ids|]; [|reflexivity].
+    destruct (provide_actuation st (get_perm st p) ids) as [st' [h|e]] eqn:E; cbn [fst];
+      unfold exec_all; cbn [fold_left]; unfold exec_state; rewrite E; reflexivity.
+  - (* provider stream: publish *)
+    unfold v2_stream_publish.
+    destruct (update_entries st (get_perm st p) (stream_updates l)) as [st' errs]. reflexivity.
+Qed.
+
+(* ---------- the provider stream (C09 / C10 / C01 at the handler) ---------- *)
+(* a claim through the stream is the core claim of the named ids followed by the resolved paths; an unknown
+   path refuses the whole claim *)
+Theorem v2_provide_is_core st p l st' h :
+  v2_provide st p l = (st', inl h) ->
+  exists ids, resolve_paths (st_db st) (sig_paths l) = Some ids /\
+              provide_actuation st p (sig_ids l ++ ids) = (st', inl h).
+Proof.
+  unfold v2_provide, v2_provide_ids. destruct (resolve_paths (st_db st) (sig_paths l)) as [r|]; [|discriminate].
+  cbn [option_map]. destruct (provide_actuation st p (sig_ids l ++ r)) as [st1 [h1|e]] eqn:E; [|discriminate].
+  intros H; inversion H; subst. exists r. split; [reflexivity|assumption].
+Qed.
+
+Theorem v2_provide_refused_no_effect st p l st' c : v2_provide st p l = (st', inr c) -> st' = st.
+Proof.
+  unfold v2_provide. destruct (v2_provide_ids (st_db st) l) as [ids|]; [|intros H; inversion H; reflexivity].
+  destruct (provide_actuation st p ids) as [st1 [h1|e]] eqn:E; [discriminate|].
+  intros H; inversion H; subst.
+  unfold provide_actuation in E.
+  destruct (first_error (can_actuate_id (st_db st) p (st_now st)) ids); [inversion E; reflexivity|].
+  match type of E with (if ?c then _ else _) = _ => destruct c end; inversion E; reflexivity.
+Qed.
+
+(* values published through the stream are the core update of exactly those datapoints *)
+Theorem v2_stream_publish_is_core st p l :
+  fst (v2_stream_publish st p l) = fst (update_entries st p (stream_updates l)) /\
+  map fst (snd (v2_stream_publish st p l)) = map fst (snd (update_entries st p (stream_updates l))).
+Proof.
+  unfold v2_stream_publish. destruct (update_entries st p (stream_updates l)) as [st' errs]. cbn [fst snd].
+  split; [reflexivity|]. rewrite map_map. apply map_ext. intros [id e]. reflexivity.
+Qed.
+
+(* ---------- subscriptions through the handlers (C03 / C07 / C14 at the handler) ---------- *)
+(* a v1 subscription is opened only if every selected signal is readable by the subscriber *)
+Theorem v1_subscribe_only_readable st p path fl st' h :
+  v1_subscribe st p path fl = (st', inl h) ->
+  exists es, v1_sub_entries st p path fl = inl es /\ subscribe st p es None = (st', inl h) /\
+             forall id f, In (id, f) es ->
+               exists e, In (id, e) (entries (st_db st)) /\ f = fl /\
+                         can_read p (st_now st) (path_segs (e_meta e)) = Perm.POk.
+Proof.
+  unfold v1_subscribe, core_subscribe. destruct (v1_sub_entries st p path fl) as [es|code] eqn:SE; [|discriminate].
+  destruct (subscribe st p es None) as [st1 [h1|e]] eqn:S; [|discriminate].
+  intros H; inversion H; subst. exists es. split; [reflexivity|]. split; [assumption|].
+  intros id f Hin. unfold v1_sub_entries in SE.
+  destruct (too_long path || negb (matcher_accepts path)); [inversion SE; subst; destruct Hin|].
+  destruct (to_glob path) as [ps|]; [|discriminate].
+  destruct (nth_id_entries (st_db st) (with_fallback ps (tree_of (st_db st)))) as [|ie0 sel0] eqn:NE; [discriminate|].
+  match type of SE with (if ?c then _ else _) = _ => destruct c eqn:EX end; [discriminate|].
+  inversion SE; subst es.
+  apply (in_map_iff (fun ie : Z * entry => (fst ie, fl)) (ie0 :: sel0)) in Hin.
+  destruct Hin as [[i e] [Heq Hin]]. inversion Heq; subst.
+  exists e. repeat split.
+  - rewrite <- NE in Hin. unfold nth_id_entries in Hin. apply in_flat_map in Hin. destruct Hin as [k [_ Hk]].
+    destruct (nth_error (entries (st_db st)) (Z.to_nat k)) as [ie|] eqn:N; [|destruct Hk].
+    destruct Hk as [Hk|[]]. subst ie. eapply nth_error_In; eassumption.
+  - destruct (can_read p (st_now st) (path_segs (e_meta e))) eqn:C; [reflexivity| |]; exfalso;
+      (match type of EX with
+       | existsb ?f ?l = false =>
+         assert (T : existsb f l = true)
+           by (apply existsb_exists; exists (id, e); split; [assumption|cbn [snd]; rewrite C; reflexivity])
+       end; rewrite T in EX; discriminate).
+Qed.
+
+(* v2: the subscription covers exactly the signals the request names, with the Datapoint field *)
+Theorem v2_subscribe_entries st p l buf st' h :
+  v2_subscribe st p l buf = (st', inl h) ->
+  exists ids, v2_resolve_all (st_db st) l = inl ids /\
+              subscribe st p (map (fun id => (id, dp_only)) (nodup_z ids)) (Some buf) = (st', inl h).
+Proof.
+  unfold v2_subscribe, v2_sub_entries, core_subscribe.
+  destruct (v2_resolve_all (st_db st) l) as [ids|code]; [|discriminate].
+  destruct (subscribe st p (map (fun id => (id, dp_only)) (nodup_z ids)) (Some buf)) as [st1 [h1|e]] eqn:S; [|discriminate].
+  intros H; inversion H; subst. exists ids. split; [reflexivity|assumption].
+Qed.
+
+(* a refused handler subscription leaves the state unchanged *)
+Theorem handler_subscribe_refused_no_effect st p :
+  (forall path fl st' c, v1_subscribe st p path fl = (st', inr c) -> st' = st) /\
+  (forall l buf st' c, v2_subscribe st p l buf = (st', inr c) -> st' = st).
+Proof.
+  assert (K : forall es buf st' c, core_subscribe st p es buf = (st', inr c) -> st' = st).
+  { intros es buf st' c. unfold core_subscribe, subscribe. destruct es as [|x es'].
+    - intros H; inversion H; reflexivity.
+    - destruct buf as [b|]; [destruct (max_subscribe_buffer_size <? b)|]; intros H; inversion H; reflexivity. }
+  split.
+  - intros path fl st' c. unfold v1_subscribe. destruct (v1_sub_entries st p path fl) as [es|code].
+    + apply K.
+    + intros H; inversion H; reflexivity.
+  - intros l buf st' c. unfold v2_subscribe. destruct (v2_sub_entries (st_db st) l) as [es|code].
+    + apply K.
+    + intros H; inversion H; reflexivity.
 Qed.
 
 (* a value written through any API is stored exactly as sent (kind, bits, order, length) *)
